@@ -4,6 +4,8 @@ import (
 	"bytes"
 	"errors"
 	"fmt"
+	"os"
+	"path/filepath"
 	"regexp"
 	"strconv"
 	"strings"
@@ -47,6 +49,24 @@ func newWorld(t *testing.T) *world {
 	t.Cleanup(w.close)
 
 	return w
+}
+
+// loseStoreFiles removes every message file of the user from the on-disk store (the index is untouched).
+func (w *world) loseStoreFiles() error {
+	dir := w.b.StoreDir(w.u)
+
+	entries, err := os.ReadDir(dir)
+	if err != nil {
+		return err
+	}
+
+	for _, e := range entries {
+		if err := os.RemoveAll(filepath.Join(dir, e.Name())); err != nil {
+			return err
+		}
+	}
+
+	return nil
 }
 
 // close logs out and removes the server with its directories (idempotent).
